@@ -7,9 +7,9 @@ with that property over every job listed for it (jobs are cached, so the pool is
 import itertools
 
 
-def one(N, copyable=True, nothrow=True, maxlen=4, maxcnt=2, kinds=(0, 1, 3, 4), maxcap=16, allocids=(0,), **kw):
+def one(N, copyable=True, nothrow=True, maxlen=4, maxcnt=2, kinds=(0, 1, 3, 4, 7), maxcap=16, allocids=(0,), **kw):
     if not copyable:
-        kinds = (5,)       # move-only elements: ranges can only be consumed through move_iterators
+        kinds = (5, 7)     # move-only elements: ranges are consumed through move_iterators or built from construct-only sources
     d = dict(NA=N, NB=N, Profile='one', MaxLen=maxlen, MaxCnt=maxcnt, MaxCap=maxcap, Copyable=copyable,
              NothrowMove=nothrow, Kinds=list(kinds), AllocIds=list(allocids))
     d.update(kw)
@@ -23,16 +23,19 @@ def two(NA, NB, maxlen=3, maxcap=8, allocids=(1, 2), copyable=True, **traits):
     return d
 
 
-def mx(N, maxsize, maxcnt=3, kinds=(0, 1, 4)):
+def mx(N, maxsize, maxcnt=3, kinds=(0, 1, 4, 7)):
     return dict(NA=N, NB=N, Profile='max', MaxLen=maxsize + 2, MaxCnt=maxcnt, MaxCap=maxsize + 2, MaxSize=maxsize,
                 Kinds=list(kinds), AllocIds=[0])
 
 
-def order(maxlen, alphabet=(1, 2, 3)):
-    return dict(Order=True, Alphabet=list(alphabet), MaxLen=maxlen)
+def order(maxlen, alphabet=(1, 2, 3), flt=False):
+    d = dict(Order=True, Alphabet=list(alphabet), MaxLen=maxlen)
+    if flt:
+        d['Flt'] = True
+    return d
 
 
-def wide(N, maxsize, kinds=(0, 1, 4)):
+def wide(N, maxsize, kinds=(0, 1, 4, 7)):
     return dict(NA=N, NB=N, Profile='wide', MaxLen=400, MaxCnt=3, MaxCap=100000, MaxSize=maxsize, Kinds=list(kinds), AllocIds=[0])
 
 
@@ -42,7 +45,7 @@ def drv(NA, NB=None, elem=0, **kw):
     return d
 
 
-NT, TM, MO, MOT, CO, TRIV, INT, MA, MC = range(9)
+NT, TM, MO, MOT, CO, TRIV, INT, MA, MC, FLT = range(10)
 
 
 def traits_mc(pocca, pocma, pocs, ae):
@@ -97,8 +100,11 @@ def jobs_for(tier, seed):
         # a stratified sample of each instance (faults on a seed-rotated quarter of them)
         for i, tr in enumerate(ALL_TRAITS):
             fm = 1 if (i + rot) % 4 == 0 else 0
-            J.append(job(two(2, 2, **traits_mc(*tr)), drv(2, 2, elem=NT if i % 2 == 0 else TM, **traits_drv(*tr)), fm, 350 if fm else 500,
-                         {'two', 'tracked', 'traits'} | ({'fault'} if fm else set()), 'two N=2,2 traits ca/ma/s/ae=%d%d%d%d' % tr))
+            # a marking select_on_container_copy_construction (id + 50) makes every misplaced call of it visible;
+            # always on where copy assignment propagates (the two are easily confused), alternating elsewhere
+            sc = 1 if (tr[0] or (i + rot) % 2 == 0) else 0
+            J.append(job(two(2, 2, SOCCC=sc, **traits_mc(*tr)), drv(2, 2, elem=NT if i % 2 == 0 else TM, SOCCC=sc, **traits_drv(*tr)), fm, 350 if fm else 500,
+                         {'two', 'tracked', 'traits'} | ({'fault'} if fm else set()), 'two N=2,2 traits ca/ma/s/ae=%d%d%d%d soccc=%d' % (tr + (sc,))))
         # mixed exception specifications (nothrow move-assign + throwing move-ctor and vice versa): the internal
         # noexcept specifications must be at least as weak as what the routine really does (C18)
         J.append(job(two(2, 2, **traits_mc(0, 1, 0, 0)), drv(2, 2, elem=MA, POCMA=1), 1, 500, {'two', 'tracked', 'traits', 'fault'}, 'two N=2,2 POCMA, nothrow move-assign / throwing move-ctor'))
@@ -130,6 +136,16 @@ def jobs_for(tier, seed):
         J.append(job(order(3), drv(1, 3, elem=NT), 0, None, {'order', 'tracked'}, 'order: all pairs len<=3, N=1 vs 3, C++17 six operators'))
         J.append(job(order(3), drv(2, 2, elem=TRIV, SPACESHIP=1, std='c++20'), 0, None, {'order', 'triv'}, 'order: all pairs len<=3, N=2,2, C++20 element with <=>'))
         J.append(job(order(3), drv(3, 0, elem=TM, std='c++20'), 1, None, {'order', 'tracked', 'fault'}, 'order: all pairs len<=3, N=3 vs 0, C++20 element without <=>, throwing moves, faults in erase / erase_if'))
+        # floating-point elements: -0.0 (code 2) equals +0.0 (code 0) with different bytes, NaN (code 3) equals nothing and is
+        # unordered -- == is not byte identity and < is only a partial order (bytewise shortcuts would show here)
+        J.append(job(order(3, alphabet=(0, 2, 3), flt=True), drv(2, 2, elem=FLT), 0, None, {'order', 'triv'}, 'order: double with -0.0 / NaN, all pairs len<=3, N=2,2, C++17'))
+        J.append(job(order(3, alphabet=(0, 2, 3), flt=True), drv(1, 3, elem=FLT, std='c++20'), 0, None, {'order', 'triv'}, 'order: double with -0.0 / NaN, all pairs len<=3, N=1 vs 3, C++20 (<=> is a partial ordering)'))
+        J.append(job(order(2, alphabet=(0, 1, 2, 3), flt=True), drv(0, 0, elem=FLT, ALLOC=0, std='c++20', cxx='clang++'), 0, None, {'order', 'triv', 'stdalloc'}, 'order: double with -0.0 / NaN / 1.0, all pairs len<=2, N=0,0, std::allocator, clang C++20'))
+        # allocators with only one of construct / destroy; a construct() whose value-construction form leaves a mark
+        # (default-init-allocator pattern): value-constructed elements must be what the allocator made them
+        J.append(job(one(2), drv(2, elem=TRIV, CONSTRUCT=2), 0, 1200, {'one', 'triv'}, 'one N=2 trivially copyable, construct-only allocator marking value-construction'))
+        J.append(job(one(0), drv(0, elem=NT, CONSTRUCT=2), 1, 500, {'one', 'fault', 'tracked'}, 'one N=0 nothrow-move, construct-only allocator marking value-construction'))
+        J.append(job(one(2, nothrow=False), drv(2, elem=TM, CONSTRUCT=3, std='c++14'), 1, 400, {'one', 'fault', 'tracked'}, 'one N=2 throwing-move, destroy-only allocator, C++14'))
     else:
         for N, el, cp, nt in ((2, NT, True, True), (0, NT, True, True), (3, TM, True, False), (0, TM, True, False),
                               (2, MO, False, True), (3, MOT, False, False), (1, CO, True, True)):
@@ -177,6 +193,15 @@ def jobs_for(tier, seed):
         for bits in (8, 16, 32):
             J.append(job(one(2, maxlen=4, maxcnt=2), drv(2, elem=TM, SIZET=bits), 1, None, {'one', 'tracked', 'narrow', 'fault'}, '%d-bit size_type, N=2, all single faults' % bits))
             J.append(job(two(2, 2, **traits_mc(0, 0, 0, 0)), drv(2, 2, elem=NT, SIZET=bits), 0, 6000, {'two', 'tracked', 'narrow'}, '%d-bit size_type, two containers' % bits))
+        for (na, nb) in ((0, 0), (1, 3), (2, 2)):
+            for (std, cxx, al) in (('c++11', 'g++', 1), ('c++17', 'g++', 0), ('c++20', 'g++', 1), ('c++23', 'g++', 1), ('c++14', 'clang++', 1), ('c++20', 'clang++', 0)):
+                J.append(job(order(3, alphabet=(0, 1, 2, 3), flt=True), drv(na, nb, elem=FLT, ALLOC=al, std=std, cxx=cxx), 0, None, {'order', 'triv'},
+                             'order: double with -0.0 / NaN / 1.0, all pairs len<=3, N=%d,%d %s %s' % (na, nb, std, cxx)))
+        for N in (0, 2, 3):
+            for el in (TRIV, INT):
+                J.append(job(one(N, maxlen=5, maxcnt=3), drv(N, elem=el, CONSTRUCT=2), 0, None, {'one', 'triv'}, 'one N=%d elem=%d construct-only allocator marking value-construction' % (N, el)))
+            J.append(job(one(N, maxlen=4, maxcnt=2), drv(N, elem=NT, CONSTRUCT=2), 1, None, {'one', 'fault', 'tracked'}, 'one N=%d nothrow-move, construct-only allocator' % N))
+            J.append(job(one(N, nothrow=False, maxlen=4, maxcnt=2), drv(N, elem=TM, CONSTRUCT=3), 1, None, {'one', 'fault', 'tracked'}, 'one N=%d throwing-move, destroy-only allocator' % N))
         for (na, nb) in ((0, 0), (1, 3), (3, 1), (2, 2), (0, 3)):
             for (el, ss, std, cxx) in ((NT, 0, 'c++17', 'g++'), (TRIV, 1, 'c++20', 'g++'), (NT, 0, 'c++20', 'g++'), (INT, 0, 'c++11', 'g++'),
                                        (TRIV, 1, 'c++20', 'clang++'), (NT, 0, 'c++14', 'clang++')):
